@@ -281,6 +281,157 @@ def serorigin(fn, operand):
     return l
 
 
+# ---- R-DIGITS ---------------------------------------------------------------------------------------------
+
+def check_digits(res, facts, tier):
+    """make_digits: (1) the window read returns exactly bits [i*w, i*w + w) of the scalar (zero beyond its end) for
+    every limb content -- proof by abstract interpretation of the closure's MIR over GF(2)-affine bit vectors, for a
+    grid of (w, i, number of limbs); (2) the signed recoding is coef = carry + window, carry' = (coef + 2^(w-1)) >> w,
+    digit = coef - carry'*2^w, with the last digit absorbing the final carry (expression rule)."""
+    from arklib import bvinterp as BI
+    from rules.c07 import E, show, A, C
+    rule = res.rule("R-DIGITS", "make_digits reads window i as bits [i*w, (i+1)*w) of the scalar for every limb content [GF(2)-affine abstract interpretation]; signed recoding identities", 3)
+    clos = [f for f in facts.fns(unit="ws", crate="ark_ec") if f.kind == "Closure" and (f.d.get("parent") or "").endswith("variable_base::make_digits")]
+    parents = [f for f in facts.fns(unit="ws", crate="ark_ec") if f.kind != "Closure" and f.id.endswith("variable_base::make_digits")]
+    if len(clos) != 1 or len(parents) != 1:
+        rule.bad("ark_ec|make_digits", "anchor missing (closures: %d)" % len(clos))
+        return
+    clo, par = clos[0], parents[0]
+    # captured environment as built by the parent: which capture is what
+    maps = [t for _, t in par.calls() if t["f"].get("name") == "map"]
+    env_t = E(par, maps[0]["args"][1]) if maps else None
+    key = "ark_ec|make_digits|captures"
+    w_t = A(2)
+    radix = ("bin", "Shl", 1, w_t)
+    roles = {}
+    if isinstance(env_t, tuple) and env_t[0] == "agg":
+        for i, op in enumerate(env_t[2]):
+            if op == w_t:
+                roles["w"] = i
+            elif op == ("bin", "Sub", radix, 1):
+                roles["mask"] = i
+            elif op == radix:
+                roles["radix"] = i
+            elif op == 0:
+                roles["carry"] = i
+            elif isinstance(op, tuple) and op[0] == "call" and op[1] == "div_ceil" and op[2][1] == w_t:
+                roles["count"] = i
+            elif op == A(1) or (isinstance(op, tuple) and op[0] in ("arg", "call")):
+                roles.setdefault("scalar", i)
+    if set(roles) >= {"w", "mask", "radix", "carry", "count", "scalar"}:
+        rule.ok(key, "captures: w, scalar, carry = 0, window_mask = (1 << w) - 1, radix = 1 << w, digits_count = ceil(num_bits / w)", par.loc)
+    else:
+        rule.bad(key, "closure environment is %s: expected w, the scalar, carry = 0, (1 << w) - 1, 1 << w and ceil(num_bits / w) (recognised: %s)" % (show(env_t) if env_t else None, sorted(roles)), par.loc)
+        return
+    # (1) window extraction
+    key = "ark_ec|make_digits|window-bits"
+    masked_local = None
+    for bi, si, s in clo.stmts():
+        r = s.get("r")
+        if r and r["k"] == "bin" and r["op"] == "BitAnd":
+            masked_local = (bi, place_parts(s["d"])[0], si)
+    if masked_local is None:
+        rule.bad(key, "no `bit_buf & window_mask` found", clo.loc)
+        return
+    stop_bb = None
+    # stop right after the block that computes the masked window: run until its terminator target
+    mb = masked_local[0]
+    t = clo.bbs[mb]["t"]
+    stop_bb = {t.get("t")} if t["k"] in ("assert", "goto", "call") else None
+    ws = list(range(1, 64)) if tier == "thorough" else [1, 2, 3, 4, 5, 7, 8, 11, 13, 15, 16, 17, 21, 31, 32, 33, 47, 63]
+    lens = (1, 2, 3, 4, 6) if tier == "thorough" else (1, 2, 4)
+    n_cases = 0
+    for w in ws:
+        for nl in lens:
+            nbits = 64 * nl
+            count = -(-nbits // w)
+            for i in range(count):
+                n_cases += 1
+                fields = {roles["w"]: w, roles["scalar"]: BI.Ref(BI.Slice([BI.BV.word(k) for k in range(nl)])), roles["carry"]: 0,
+                          roles["mask"]: (1 << w) - 1, roles["radix"]: 1 << w, roles["count"]: count}
+                # any further capture: evaluate its defining integer expression from the parent
+                from rules.c01 import ieval
+                scal_t = env_t[2][roles["scalar"]]
+                for ci, op in enumerate(env_t[2]):
+                    if ci not in fields:
+                        try:
+                            fields[ci] = ieval(op, {w_t: w, ("call", "len", (scal_t,)): nl})
+                        except Exception:
+                            pass
+                try:
+                    vals, end = BI.run(clo, {1: BI.Ref(BI.Struct(fields)), 2: i}, stop_after=(masked_local[0], masked_local[2]))
+                except BI.Stop as e:
+                    msg = str(e)
+                    if "out of bounds" in msg or "assertion fails" in msg:
+                        rule.bad(key, "window %d of width %d over a %d-limb scalar: %s (the digit extraction panics)" % (i, w, nl, msg), clo.loc)
+                    else:
+                        rule.undecided(key, "abstract interpretation stopped at (w, i, limbs) = (%d, %d, %d): %s" % (w, i, nl, msg), clo.loc)
+                    return
+                v = vals.get(masked_local[1])
+                if isinstance(v, int):
+                    v = BI.BV([0] * 64, v)
+                if not isinstance(v, BI.BV):
+                    rule.undecided(key, "masked window is not a bit vector at (w, i, limbs) = (%d, %d, %d)" % (w, i, nl), clo.loc)
+                    return
+                for j in range(64):
+                    src = i * w + j
+                    want = (1 << src) if (j < w and src < nbits) else 0
+                    row, c = v.bit(j)
+                    if row != want or c:
+                        rule.bad(key, "window %d of width %d over a %d-limb scalar: result bit %d is %s, expected %s: the digit does not hold bits [%d, %d) of the scalar" % (
+                            i, w, nl, j, _bitname(row, c), ("scalar bit %d" % src) if want else "0", i * w, i * w + w), clo.loc)
+                        return
+    rule.ok(key, "window = bits [i*w, i*w+w) of the scalar (zero past the end) for all limb contents, %d (w, i, limbs) cases" % n_cases, clo.loc)
+    # (2) recoding identities (expression level)
+    key = "ark_ec|make_digits|recoding"
+    U = lambda i: ("arg", 1, (str(i),))
+    problems = []
+    coef = None
+    for bi, si, s in clo.stmts():
+        r = s.get("r")
+        if r and r["k"] == "bin" and r["op"].startswith("Add"):
+            e = E(clo, {"c": place_parts(s["d"])[0]})
+            if isinstance(e, tuple) and e[0] == "bin" and e[1] == "Add" and e[2] == U(roles["carry"]) and isinstance(e[3], tuple) and e[3][0] == "bin" and e[3][1] == "BitAnd":
+                coef = e
+    if coef is None:
+        problems.append("coef = carry + (bit_buf & window_mask) not found")
+    else:
+        half = ("bin", "Div", U(roles["radix"]), 2)
+        newc = ("bin", "Shr", ("bin", "Add", coef, half), U(roles["w"]))
+        stores = []
+        for bi, si, s in clo.stmts():
+            if "d" in s:
+                l, projs = place_parts(s["d"])
+                if l == 1 and DF._fields(projs) == (str(roles["carry"]),):
+                    rr = s["r"]
+                    if rr["k"] == "use":
+                        stores.append(E(clo, rr["o"]))
+                    elif rr["k"] == "bin":
+                        from rules.c07 import norm
+                        stores.append(norm(("bin", rr["op"], DF.expr(clo, rr["a"], depth=40), DF.expr(clo, rr["b"], depth=40))))
+        if stores != [newc]:
+            problems.append("carry update is %s, expected (coef + radix/2) >> w" % [show(x)[:120] for x in stores])
+        # digit = coef - (carry' << w); MIR reads the updated capture, i.e. the same place
+        subs = []
+        for bi, si, s in clo.stmts():
+            r = s.get("r")
+            if r and r["k"] == "bin" and r["op"].startswith("Sub"):
+                e = E(clo, {"c": place_parts(s["d"])[0]})
+                if isinstance(e, tuple) and e[0] == "bin" and e[1] == "Sub" and e[2] == coef:
+                    subs.append(e[3])
+        if subs != [("bin", "Shl", U(roles["carry"]), U(roles["w"]))]:
+            problems.append("digit is coef - %s, expected coef - (carry << w)" % [show(x)[:80] for x in subs])
+        last = [E(clo, b["t"]["o"]) for b in clo.bbs if b["t"]["k"] == "switch"]
+        if ("bin", "Eq", A(2), ("bin", "Sub", U(roles["count"]), 1)) not in last:
+            problems.append("the final carry is not folded into the last digit (i == digits_count - 1)")
+    (rule.bad if problems else rule.ok)(key, "; ".join(problems) if problems else "coef = carry + window; carry' = (coef + radix/2) >> w; digit = coef - (carry' << w); last digit += carry' << w", clo.loc)
+
+
+def _bitname(row, c):
+    xs = ["scalar bit %d" % i for i in range(row.bit_length()) if (row >> i) & 1]
+    return (" ^ ".join(xs) if xs else "0") + (" ^ 1" if c else "")
+
+
 def run(ctx, res):
     facts = ctx.facts(["ws", "par"])
     res.analysed = facts.stats()
@@ -288,6 +439,7 @@ def run(ctx, res):
     check_len(res, facts)
     check_flush(res, facts)
     check_window(res, facts)
+    check_digits(res, facts, ctx.tier)
     return {
         "level": "other",
         "explanation": "Typestate / pairing rules over the MIR of ark-ec's variable-base MSM and streaming Pippenger code (serial and parallel configurations): lock-step mutation of paired buffers, length policy of checked and unchecked entry points, flush/finalize structure, window recombination. Does NOT decide that any entry point returns the sum (digit extraction and bucket indexing are run-time index arithmetic).",
